@@ -475,9 +475,10 @@ fn run_history(m: &Chan, hist: &[Ev]) -> (Result<(), String>, Vec<String>, usize
 /// Pass 2: every history up to `depth` events WITHOUT deduplication (no reliance on the canonical form).
 /// Returns (histories run, first violations).
 fn all_histories(m: &Chan, depth: usize, jobs: usize) -> (u64, Vec<(Vec<Ev>, String)>) {
-    // split on the first three events, then recurse
+    // split on the first SPLIT events, then recurse
+    const SPLIT: usize = 5;
     let mut prefixes: Vec<Vec<Ev>> = vec![vec![]];
-    for _ in 0..3.min(depth) {
+    for _ in 0..SPLIT.min(depth) {
         let mut next = Vec::new();
         for p in &prefixes {
             let (res, _, _) = run_history(m, p);
@@ -526,7 +527,7 @@ fn all_histories(m: &Chan, depth: usize, jobs: usize) -> (u64, Vec<(Vec<Ev>, Str
     let short = AtomicU64::new(0);
     {
         let mut layer: Vec<Vec<Ev>> = vec![vec![]];
-        for _ in 0..3.min(depth) {
+        for _ in 0..SPLIT.min(depth) {
             short.fetch_add(layer.len() as u64, Ordering::Relaxed);
             let mut next = Vec::new();
             for p in &layer {
